@@ -270,15 +270,37 @@ class Monitor:
         for (ptt, pm) in self.promises.get(sid, []):
             if pm is not None and ptt[0] < t <= pm:
                 if not (causes and all(self._excusable(c_, sid, ptt) for c_ in causes)):
+                    # root cause: every chain of causes ends in an external event (set_event in
+                    # real-time mode) of ANOTHER simulator
+                    cls = "external-event-of-ancestor" if self._only_external(causes, sid) else None
+                    if cls is None and causes and self._roots(sid, causes) == {("ext", sid)}:
+                        continue      # the simulator's own set_event: its own control
                     self.add("C07", "promise-broken",
                              f"{sid} stepped at {tt} inside the promised window "
                              f"({ptt[0]},{pm}] of its step {ptt}; causes="
-                             f"{sorted(map(str, causes))}", sim=sid)
+                             f"{sorted(map(str, causes))}", sim=sid, cls=cls)
         self.promises.setdefault(sid, []).append((tt, madv))
         # ---- C03 inputs
         self.check_inputs(sid, tt, inputs)
         self.cur[sid] = (k, tt)
         self.begun[sid] = tt
+
+    def _roots(self, owner, causes, seen=()):
+        """root causes of a step of `owner` with the given causes: (kind, simulator) pairs"""
+        out = set()
+        for c in causes:
+            if c in ("init", "ext"):
+                out.add((c, owner))
+            elif c in seen or not self.stepcause.get(c):
+                out.add(("unknown", None))
+            else:
+                out |= self._roots(c[0], self.stepcause[c], seen + (c,))
+        return out
+
+    def _only_external(self, causes, sid):
+        """every chain of causes ends in an external event, at least one of ANOTHER simulator"""
+        roots = self._roots(sid, causes)
+        return bool(roots) and all(k == "ext" for k, _ in roots) and any(q != sid for _, q in roots)
 
     def _excusable(self, step, sid, ptt, seen=()):
         if step in ("init", "ext"):
